@@ -74,6 +74,33 @@ class Cat:
         return hash(repr(self))
 
 
+class AbsObj:
+    """An object of a package class whose methods are interpreted: the class (for method / property lookup) and its
+    fields.  Aliases share the AbsObj, so mutation through one reference is seen through the others."""
+    def __init__(self, cls):
+        self.cls = cls
+        self.fields = {}
+
+    def __deepcopy__(self, memo):
+        import copy
+        o = AbsObj(self.cls)
+        memo[id(self)] = o
+        o.fields = copy.deepcopy(self.fields, memo)
+        return o
+
+    def __repr__(self):
+        return "<%s %s>" % (self.cls.name, {k: v for k, v in self.fields.items() if not isinstance(v, AbsObj)})
+
+
+class Closure:
+    """A lambda with the environment it was created in."""
+    def __init__(self, node, env, f):
+        self.node, self.env, self.f = node, env, f
+
+    def __deepcopy__(self, memo):
+        return self
+
+
 class AbsFile:
     """Abstract file handle: writes append to the evaluator's per-path content list; mode 'w' truncated it at open."""
     def __init__(self, key, mode):
@@ -115,6 +142,8 @@ class Evaluator:
         self.effects = []
         self._yields = []
         self.unknown_attrs = set()
+        self.concrete_classes = set()   # names of package classes whose constructor builds an AbsObj (methods interpreted)
+        self.ctor_hooks = {}         # class name -> callable(args, kwargs) -> abstract value built instead of ("new", ...)
         self.stubs = {}              # name of a package function -> value it returns (the callee is not interpreted)
         self.symbolic = set()        # names of package functions kept symbolic: ("call", name, args, kwargs) instead of inlining
         self.visited = set()         # functions entered by the evaluation
@@ -154,6 +183,48 @@ class Evaluator:
                 raise AnalysisError("decision table of %s explodes" % func.qual)
         return results
 
+    def _bind(self, t, args, kws, site_desc):
+        params = t.bound_params
+        bound, star = {}, []
+        for i, a in enumerate(args):
+            if i < len(params):
+                bound[params[i]] = a
+            else:
+                star.append(a)
+        bound.update(kws)
+        if t.vararg:
+            bound["*"] = tuple(star)
+        return bound
+
+    def invoke(self, obj, name, args, kws, depth, site=None):
+        """Call method `name` of the abstract object."""
+        m = obj.cls.find_method(name)
+        if m is None:
+            raise Raised("AttributeError")
+        if name in self.watch:
+            self.effects.append((name,) + tuple(freeze(a) for a in args) + tuple(sorted((k, freeze(x)) for k, x in kws.items())))
+        return self.call(m, self._bind(m, args, kws, name), None, depth + 1, selfobj=(None if m.is_static else obj))
+
+    def getattr_obj(self, obj, attr, depth, site_desc=""):
+        if attr in obj.fields:
+            return obj.fields[attr]
+        m = obj.cls.find_method(attr)
+        if m is not None and m.is_property:
+            return self.call(m, {}, None, depth + 1, selfobj=obj)
+        if m is not None:
+            return ("bound", obj, m)
+        raise Raised("AttributeError")
+
+    def new(self, cls, **kws):
+        """Build an abstract object of an interpreted class from the driver (runs __init__)."""
+        obj = AbsObj(cls)
+        init = cls.find_method("__init__")
+        self._decisions, self._taken = [], []
+        self._yields = self._yields or []
+        if init is not None:
+            self.call(init, dict(kws), None, 1, selfobj=obj)
+        return obj
+
     def decide(self, site):
         if self._decisions:
             d = self._decisions.pop(0)
@@ -162,11 +233,13 @@ class Evaluator:
         raise Fork(site)
 
     # -------------------------------------------------------------------- call
-    def call(self, func, args, selfenv, depth):
+    def call(self, func, args, selfenv, depth, selfobj=None):
         if depth > self.max_depth:
             raise AnalysisError("abstract evaluation too deep at " + func.qual)
         self.visited.add(func.qual)
-        env = dict(selfenv)
+        env = dict(selfenv or {})
+        if selfobj is not None:
+            env["self"] = selfobj
         params = func.bound_params
         for p in params:
             if p in args:
@@ -185,7 +258,8 @@ class Evaluator:
             return tuple(ys) if func.is_generator else r.value
         finally:
             # state of the receiver object written by the callee is visible to the caller (and to the driver)
-            selfenv.update({k: v for k, v in env.items() if k.startswith("self.")})
+            if selfenv is not None:
+                selfenv.update({k: v for k, v in env.items() if k.startswith("self.")})
         ys = self._yields.pop()
         return tuple(ys) if func.is_generator else None
 
@@ -295,6 +369,13 @@ class Evaluator:
     def assign(self, t, v, env, f):
         if isinstance(t, ast.Name):
             env[t.id] = v
+        elif isinstance(t, ast.Attribute) and isinstance(t.value, ast.Name) and isinstance(env.get(t.value.id), AbsObj):
+            obj = env[t.value.id]
+            st_ = obj.cls.find_setter(t.attr)
+            if st_ is not None:
+                self.call(st_, {st_.bound_params[0]: v}, None, 1, selfobj=obj)
+            else:
+                obj.fields[t.attr] = v
         elif isinstance(t, ast.Attribute):
             if isinstance(t.value, ast.Name) and isinstance(env.get(t.value.id), dict):
                 env[t.value.id][t.attr] = v       # abstract object: the caller inspects it afterwards
@@ -338,12 +419,17 @@ class Evaluator:
                 v = self.ctx.p.fold(f.module, e)
                 return self.int_override.get(v, v) if type(v) is int else v
             except Unfoldable:
+                r_ = self.ctx.p.resolve_name(f.module, e.id)
+                if r_ is not None and r_[0] == "class":
+                    return ("class", r_[1])        # a class used as a value (passed on, called later)
                 raise AnalysisError("name %s is not bound for the table extractor (%s)" % (e.id, f.loc(e)))
         if isinstance(e, ast.Attribute):
             k = ast.unparse(e)
             if k in env:
                 return env[k]
             base = self.expr(e.value, env, f, depth) if not isinstance(e.value, ast.Name) or e.value.id in env else None
+            if isinstance(base, AbsObj):
+                return self.getattr_obj(base, e.attr, depth)
             if isinstance(base, dict) and e.attr in base:
                 return base[e.attr]
             if isinstance(base, dict) and any(k.endswith("()") or k in ("cardinality", "st_type", "name") for k in base):
@@ -407,8 +493,12 @@ class Evaluator:
             if isinstance(base, (tuple, list, dict, str)) and not isinstance(idx, (Opaque, Sym)):
                 try:
                     return base[idx]
-                except (KeyError, IndexError):
+                except KeyError:
                     raise Raised("KeyError")
+                except IndexError:
+                    raise Raised("IndexError")
+                except TypeError:
+                    raise Raised("TypeError")
             raise AnalysisError("subscript not supported (%s)" % f.loc(e))
         if isinstance(e, ast.JoinedStr):
             return Opaque("fstring")
@@ -420,7 +510,7 @@ class Evaluator:
             self._yields[-1].append(self.expr(e.value, env, f, depth) if e.value is not None else None)
             return None
         if isinstance(e, ast.Lambda):
-            return Opaque("lambda")
+            return Closure(e, env, f)
         if isinstance(e, (ast.ListComp, ast.GeneratorExp, ast.SetComp)) and len(e.generators) == 1:
             gen = e.generators[0]
             it = self.expr(gen.iter, env, f, depth)
@@ -527,8 +617,10 @@ class Evaluator:
         args = [self.expr(a, env, f, depth) for a in e.args]
         kws = {k.arg: self.expr(k.value, env, f, depth) for k in e.keywords}
         if isinstance(fn, ast.Name):
-            if fn.id == "len" and args and isinstance(args[0], (list, tuple, str, dict)):
+            if fn.id == "len" and args and isinstance(args[0], (list, tuple, str, dict, set)):
                 return len(args[0])
+            if fn.id == "len" and args and isinstance(args[0], AbsObj):
+                return self.invoke(args[0], "__len__", [], {}, depth)
             if fn.id == "abs" and args and isinstance(args[0], (int, float)):
                 return abs(args[0])
             if fn.id in ("max", "min") and len(args) >= 2 and all(type(a) in (int, float) for a in args) and not kws:
@@ -583,6 +675,46 @@ class Evaluator:
                 return self.decide(e)
         if isinstance(fn, ast.Attribute):
             recv_name = fn.value.id if isinstance(fn.value, ast.Name) else ast.unparse(fn.value)
+            # ---- receivers that are abstract objects of interpreted classes, and in-place sorting with a key
+            rv0 = env.get(recv_name, UNKNOWN)
+            if rv0 is UNKNOWN and (isinstance(env.get("self"), AbsObj) or not isinstance(fn.value, ast.Name)):
+                try:
+                    rv0 = self.expr(fn.value, env, f, depth)
+                except (AnalysisError, Raised):
+                    rv0 = UNKNOWN
+            if isinstance(rv0, AbsObj):
+                return self.invoke(rv0, fn.attr, args, kws, depth, e)
+            if isinstance(rv0, dict) and (fn.attr + "()") in rv0 and callable(rv0[fn.attr + "()"]) and getattr(rv0[fn.attr + "()"], "wants_args", False):
+                if fn.attr in self.watch:
+                    self.effects.append((fn.attr,) + tuple(freeze(a) for a in args) + tuple(sorted((k, freeze(x)) for k, x in kws.items())))
+                return rv0[fn.attr + "()"](rv0, args, kws)
+            if recv_name not in env and type(rv0) is list and fn.attr in ("append", "extend", "insert", "remove", "clear", "pop", "index", "count") and not kws:
+                try:
+                    return getattr(rv0, fn.attr)(*args)
+                except ValueError:
+                    raise Raised("ValueError")
+                except IndexError:
+                    raise Raised("IndexError")
+            if recv_name not in env and type(rv0) is set and fn.attr in ("add", "discard", "remove") and len(args) == 1:
+                try:
+                    return getattr(rv0, fn.attr)(args[0])
+                except KeyError:
+                    raise Raised("KeyError")
+            if type(rv0) is list and fn.attr == "sort" and not args and set(kws) <= {"key", "reverse"}:
+                keyf = kws.get("key")
+                def _k(x):
+                    if keyf is None:
+                        return x
+                    if not isinstance(keyf, Closure):
+                        raise AnalysisError("sort key is not a lambda (%s)" % f.loc(e))
+                    sub = dict(keyf.env)
+                    sub[keyf.node.args.args[0].arg] = x
+                    v = self.expr(keyf.node.body, sub, keyf.f, depth)
+                    if not isinstance(v, (int, float, str)) or isinstance(v, bool):
+                        raise AnalysisError("sort key is not a concrete number/string (%s)" % f.loc(e))
+                    return v
+                rv0.sort(key=_k, reverse=bool(kws.get("reverse", False)))
+                return None
             if isinstance(env.get(recv_name), AbsFile):
                 fh = env[recv_name]
                 if fn.attr == "write" and len(args) == 1:
@@ -643,6 +775,8 @@ class Evaluator:
                 v = env[recv_name][fn.attr + "()"]
                 if fn.attr in self.watch:
                     self.effects.append((fn.attr,) + tuple(freeze(a) for a in args) + tuple(sorted((k, freeze(x)) for k, x in kws.items())))
+                if callable(v) and getattr(v, "wants_args", False):
+                    return v(env[recv_name], args, kws)
                 return v(env[recv_name]) if callable(v) else v
             if recv_name in env and hasattr(env[recv_name], "items_") and fn.attr == "get" and args and isinstance(args[0], int):
                 return env[recv_name].items_[args[0]]
@@ -676,12 +810,29 @@ class Evaluator:
                 else:
                     env[recv_name].extend(args[0])
                 return None
+        if isinstance(fn, ast.Name) and isinstance(env.get(fn.id), tuple) and len(env[fn.id]) == 2 and env[fn.id][0] == "class":
+            c = env[fn.id][1]
+            if c.name in self.ctor_hooks:
+                return self.ctor_hooks[c.name](args, kws)
+            if c.name in self.concrete_classes:
+                obj = AbsObj(c)
+                init = c.find_method("__init__")
+                if init is not None:
+                    self.call(init, self._bind(init, args, kws, c.name), None, depth + 1, selfobj=obj)
+                return obj
+            return ("new", c.name, tuple(freeze(a) for a in args), tuple(sorted((k, freeze(v)) for k, v in kws.items())))
         cs = self.ctx.r.site_of.get(id(e))
         if cs is not None and cs.targets and cs.kind in ("func", "self", "static", "typed") and any(t.name in self.stubs for t in cs.targets):
             import copy as _copy
             return _copy.deepcopy(self.stubs[[t.name for t in cs.targets if t.name in self.stubs][0]])
         if cs is not None and cs.targets and cs.kind in ("func", "self", "static", "typed") and any(t.name in self.symbolic for t in cs.targets):
             return ("call", cs.targets[0].name, tuple(freeze(a) for a in args), tuple(sorted((k, freeze(v)) for k, v in kws.items())))
+        if cs is not None and cs.kind in ("self", "super") and isinstance(env.get("self"), AbsObj) and isinstance(fn, ast.Attribute) \
+                and isinstance(fn.value, ast.Name) and fn.value.id == "self":
+            return self.invoke(env["self"], fn.attr, args, kws, depth, e)
+        if cs is not None and cs.kind == "super" and isinstance(env.get("self"), AbsObj) and len(cs.targets or []) == 1:
+            t = cs.targets[0]
+            return self.call(t, self._bind(t, args, kws, t.name), None, depth + 1, selfobj=env["self"])
         if cs is not None and cs.targets and cs.kind in ("func", "self", "static", "typed"):
             if len(cs.targets) != 1:
                 raise AnalysisError("table extractor: call %s has several targets" % ast.unparse(e)[:50])
@@ -740,6 +891,15 @@ class Evaluator:
             return ("call", fn.id, tuple(freeze(a) for a in args), tuple(sorted((k, freeze(v)) for k, v in kws.items())))
         if cs is not None and cs.kind in ("ctor", "ctor_noinit"):
             cname = cs.recv_types.name if cs.kind == "ctor" else cs.recv_types[0].name
+            if cname in self.ctor_hooks:
+                return self.ctor_hooks[cname](args, kws)
+            if cname in self.concrete_classes:
+                c = cs.recv_types if cs.kind == "ctor" else cs.recv_types[0]
+                obj = AbsObj(c)
+                init = c.find_method("__init__")
+                if init is not None:
+                    self.call(init, self._bind(init, args, kws, cname), None, depth + 1, selfobj=obj)
+                return obj
             return ("new", cname, tuple(freeze(a) for a in args), tuple(sorted((k, freeze(v)) for k, v in kws.items())))
         if cs is not None and cs.kind in ("ext", "builtin", "byname", "unresolved"):
             return Opaque("call")
